@@ -1157,6 +1157,8 @@ func (p *parser) parseBlock(block text.BlockReader, parent ast.Node, pc Context)
 	block.Reset(parent.Lines())
 	for {
 	retry:
+		// an escape never extends over a line end or over a parsed inline node
+		escaped = false
 		line, _ := block.PeekLine()
 		if line == nil {
 			break
